@@ -334,8 +334,42 @@ fn main() {
         check_text(&mut st, extra);
     }
 
+    // 2b. every ASCII byte (and a few other characters) substituted at the first, a middle and
+    // the last position of each field of an otherwise canonical string, and inserted there
+    {
+        let mut chars: Vec<char> = (0u8..=127).map(|b| b as char).collect();
+        chars.extend(['\u{80}', '\u{e9}', '\u{ff10}', '\u{ff21}', '\u{0660}', '\u{2010}', '\u{10ffff}']);
+        let fields = ["0af7651916cd43dd8448eb211c80319c", "b7ad6b7169203331", "01"];
+        for (fi, f) in fields.iter().enumerate() {
+            let positions = [0usize, f.len() / 2, f.len() - 1];
+            for pos in positions {
+                for c in &chars {
+                    for insert in [false, true] {
+                        let mut v: Vec<char> = f.chars().collect();
+                        if insert {
+                            v.insert(pos, *c);
+                        } else {
+                            v[pos] = *c;
+                        }
+                        let nf: String = v.into_iter().collect();
+                        let mut parts: Vec<String> = vec!["00".to_string(), fields[0].to_string(), fields[1].to_string(), fields[2].to_string()];
+                        parts[fi + 1] = nf;
+                        check_text(&mut st, &parts.join("-"));
+                    }
+                }
+            }
+        }
+        // and in the version field
+        for c in &chars {
+            check_text(&mut st, &format!("0{}-{}-{}-{}", c, fields[0], fields[1], fields[2]));
+            check_text(&mut st, &format!("{}0-{}-{}-{}", c, fields[0], fields[1], fields[2]));
+        }
+    }
+
     // 3. random byte / char mutations of valid strings
-    let alphabet: Vec<char> = "0123456789abcdefABCDEFg-+ _xX\u{0}\u{e9}\u{ff11}\n".chars().collect();
+    let mut alphabet: Vec<char> = "0123456789abcdefABCDEFg-+ _xX\u{0}\u{e9}\u{ff11}\n".chars().collect();
+    // every ASCII byte takes part in the random mutations as well
+    alphabet.extend((0u8..=127).map(|b| b as char));
     let n_mut = 250_000 * scale;
     for k in 0..n_mut {
         let t = rng.u128();
